@@ -1,4 +1,4 @@
-import PsecModel
+import PsecModel.Exec
 import Driver.Ops
 /-!
 # Line-protocol driver: one operation per line on stdin, one reply per line on stdout.
